@@ -15,6 +15,8 @@ import json
 import os
 import re
 
+from props import cache_common
+
 
 def _read(ctx, name):
     p = os.path.join(ctx.workdir, name)
@@ -85,6 +87,10 @@ def run(ctx):
     if getattr(ctx, "replay", None):
         d = json.load(open(ctx.replay))
         ctx.seed, ctx.tier = int(d.get("seed", ctx.seed)), d.get("tier", ctx.tier)
+        if "cache_args" in d:       # a cache-layer violation (props/cache_common.py)
+            cov = {"evaluations": 0, "distinct_nontrivial": 0, "rule": "replay"}
+            cov.update(cache_common.replay_cache(ctx, "c08-", d))
+            return ctx.finish("proof", cov)
     s1 = ctx.proof_obligations()
     if not ctx.quick and s1["ok"]:
         okc, outc = ctx.coqchk()
@@ -100,9 +106,17 @@ def run(ctx):
         ctx.seed = seed0
         searched = "re-ran the fault enumeration with a 4x budget and seed %d: %d faulted runs, %d violations found" % (
             seed0 * 7919 + 13, cov2.get("evaluations", 0), len(ctx.violations))
+    # cache layer under backend faults: model Storage/Cache.v <-> PagedCachedFile, best-effort vs required writeback
+    c_ok, c_detail, c_cov, c_searched = cache_common.check_cache(ctx, "c08-", "faults", 120 if ctx.quick else 1500)
+    cov.update(c_cov)
+    cov["traces_validated_against_impl"] = cov.get("traces_validated_against_impl", 0) + c_cov.get("cache_programs", 0)
+    if not c_ok:
+        s2 = list(s2) + ["cache layer: " + str(c_detail)[:1200]]
+        searched = ((searched + " | ") if searched else "") + (c_searched or "")
     cov["rule"] = ("one evaluation = one faulted run of a history (history, index k of the failing backend call, once/permanent, "
                    "torn or clean failed write) with all S3 checks and 2 reopened images; all are distinct triples and non-trivial "
-                   "(the k-th call was reached and failed); strata = (API call in progress, kind of the failed call, commit shape)")
+                   "(the k-th call was reached and failed); strata = (API call in progress, kind of the failed call, commit shape); "
+                   "cache_* keys: call programs with injected backend failures on the real PagedCachedFile vs the extracted cache model")
     cov["trusted_base"] = ["Coq 8.16.1 kernel + vm_compute",
                            "harness/src/bin/c08.rs + harness/src/c08_util.rs (fault-injecting backend, specification model of table contents, API-call numbering)",
                            "extraction (ExtrOcamlBasic only) + ocaml/c08_driver.ml",
